@@ -1,6 +1,7 @@
 ---- MODULE MCCoW ----
 EXTENDS CoW
 MCCodesOne == {2}
+MCCodesTwo == {2, 17}
 MCCodesQuick == {0, 2, 3, 16, 31}
 MCCodesFull == 0..31
 ====
